@@ -295,7 +295,8 @@ class Gen:
             # a comparison chain whose value is not used: the operands are still evaluated left to right, each once, and
             # evaluation stops at the first false link (guide: chained comparisons), wherever the expression stands
             n = r.choice([2, 3, 3])
-            xs = [App(Id("t"), [self.lit_num() if r.random() < 0.7 else self.expr(sc, "num", 1)]) for _ in range(n + 1)]
+            # (number literals only: whether an ill-typed last link still throws when the value is unused is E1, unspecified)
+            xs = [App(Id("t"), [self.lit_num()]) for _ in range(n + 1)]
             return Cmp([r.choice(CMPS) for _ in range(n)], xs)
         if r.random() < 0.04:
             # a function literal whose value is not used: creating a function runs nothing
